@@ -61,6 +61,14 @@ def main():
                         tiny.write_text(';begin\n;0\nbegin:\n2*w+1;\n2*w;\n2*w+1;\n2*w;\nloop: ;loop\n')
                         keep = out_capture.getvalue()
                         flipjump.assemble_and_run([tiny], memory_width=o['w'], use_stl=False, print_time=False, print_termination=False)
+                        if o['use_stl']:
+                            # and one that uses the library (same width and warnings mode) and defines top-level constants
+                            # spelled like the labels of the programs that follow
+                            consts = files[0].parent / 'prior_consts.fj'
+                            consts.write_text('done = 5\nend = 7\nascii = 9\nstart = 3\nl = 1\nstl.startup\n'
+                                              'stl.output_char 48 + done + end + ascii + start + l\nstl.loop\n')
+                            flipjump.assemble_and_run([consts], memory_width=o['w'], use_stl=True, warning_as_errors=o['werror'],
+                                                      print_time=False, print_termination=False)
                         out_capture.seek(0)
                         out_capture.truncate()
                         out_capture.write(keep)
